@@ -13,7 +13,7 @@
  *         converts to int; recomputed here with the same libm calls)
  *   exp <l>                        logmath_exp(l)                    -> e <k> <same>
  *        (k = exponent handed to pow(), recovered from the result; same = 1 iff the result is
- *         bit-identical to pow(base, (double)k))
+ *         bit-identical to pow(base, (double)k); `e oor 0` when pow() under- or overflowed)
  */
 #include "common.h"
 #include <math.h>
@@ -93,7 +93,13 @@ int main(int argc, char **argv)
             int l = atoi(w[1]);
             double r = logmath_exp(lm, l);
             double base = logmath_get_base(lm);
-            long long k = llround(log(r) / log(base));
+            long long k;
+            if (!(r > 0.0) || isinf(r)) { /* pow() under/overflowed: exponent not recoverable */
+                printf("e oor 0\n");
+                fflush(stdout);
+                continue;
+            }
+            k = llround(log(r) / log(base));
             double again = pow(base, (double)k);
             printf("e %lld %d\n", k, memcmp(&again, &r, sizeof(r)) == 0);
         } else {
